@@ -48,6 +48,8 @@ func c13Configs() []c13Config {
 		{"A", a, c13UserA},
 		{"B", b, c13UserA},
 		{"A+bounds", a, c13UserA + "\nfunc (p *parser) _onBounds(r any, b, e Token) {}\n"},
+		// A with the two token declarations exchanged: same names, same file sizes, other numbers
+		{"A-swapped", strings.Replace(a, "X = 'x'\nY = 'y'\n", "Y = 'y'\nX = 'x'\n", 1), c13UserA},
 	}
 }
 
@@ -311,7 +313,7 @@ func c13InProcess(c *mc.Ctx) {
 	defer os.RemoveAll(tmpRoot)
 	cfgs := c13Configs()
 	// package names differ between configurations
-	pkgName := []string{"p", "q", "p"}
+	pkgName := []string{"p", "q", "p", "q"}
 	mk := func(i int, tag string) string {
 		base := filepath.Join(tmpRoot, tag)
 		dir := filepath.Join(base, "pkg")
